@@ -951,8 +951,9 @@ theorem generated_getters_match_model (r : Res) :
   ⟨Gen.getResult_eq r, Gen.getMean_eq r, Gen.getVar_eq r⟩
 
 /-- the integer type codes read from the class body (`Result.SUMTYPE … CHOICETYPE`) are the ones
-    the line protocol of the correspondence check uses (`0 1 2 3`), and `update` still converts
-    numpy scalars / 0-d arrays to Python numbers before anything else -/
+    the line protocol of the correspondence check uses (`0 1 2 3`), and `update` converts `value` and
+    `total` (numpy scalars / 0-d arrays) to Python numbers before they reach arithmetic, an attribute
+    or a list -/
 theorem generated_type_codes_and_conversion :
     Generated.C06.tyCode .sum = 0 ∧ Generated.C06.tyCode .ratio = 1 ∧ Generated.C06.tyCode .misc = 2
       ∧ Generated.C06.tyCode .choice = 3 ∧ Generated.C06.updateConvertsNumpy = true := by
